@@ -28,7 +28,8 @@ namespace flow {
 
 void EventPublisherImpl::subscribe(EventSubscriber *subscriber) {
   auto iter_end = subscriber_vec_.end();
-  auto iter = std::remove(subscriber_vec_.begin(), iter_end, subscriber);
+  //! 只查找，不能用 std::remove()：它会把已订阅的 subscriber 挤掉，并留下一个重复的尾元素
+  auto iter = std::find(subscriber_vec_.begin(), iter_end, subscriber);
   if (iter == iter_end) {
     subscriber_vec_.push_back(subscriber);
   }
